@@ -826,7 +826,8 @@ class TCPUDSServerTransport(UDSServerTransport):
             try:
                 line = await reader.readline()
 
-                if not line:
+                # EOF, possibly in the middle of a line
+                if not line.endswith(b"\n"):
                     break
 
                 tcp_request = line.decode("ascii").strip()
